@@ -362,6 +362,11 @@ func expectFor0(p *plan.Plan, op *plan.Op, openSeam bool) Expect {
 			if total*2 >= tmo && !e.MustFail {
 				e.MayFail, e.Why = true, "delays comparable to the timeout"
 			}
+			// a caller that is itself held up past its own timeout while the body is still unread (descheduled,
+			// a slow machine, a log destination that does not take the line) finds the request cancelled
+			if !e.MustFail && !e.MayFail && (len(p.Schedule.Stalls) > 0 || p.Schedule.YieldCostNs > 0) {
+				e.MayFail, e.Why = true, "caller held up while its timeout runs"
+			}
 		}
 	}
 	return e
